@@ -512,6 +512,13 @@ def do_setup():
         for e in EXTRACT_SETS:
             ok, lg = build_exe(e)
             log('executable', e, 'OK' if ok else 'FAILED', lg[-300:])
+        # every property plug-in must load (a typo in a claim text must not silently drop a check)
+        for i in range(1, 21):
+            try:
+                importlib.import_module('props.C%02d' % i)
+            except Exception as e:
+                print('CANNOT IMPORT props.C%02d: %r' % (i, e))
+                rc = rc or 5
         # the decision extractors must react to an edit of every decision they read (tools/selftest_units.py)
         rcs, outs = run([PY, os.path.join(VERIF, 'tools', 'selftest_units.py'), REPO])
         print(outs.strip())
